@@ -129,6 +129,7 @@ class Ctx:
                     f"floor confirmed by reading is {fl} - the anchor pattern no "
                     "longer matches the code (cannot decide)"
                 )
+        self.problems = problems
         if problems and not self.findings:
             raise AnalysisError("; ".join(problems))
         for p in problems:
